@@ -19,9 +19,10 @@ RULE = ('peek: byte strings of length 0..64. Sweep: each of the first 7 bytes th
         'frame of the four non-protocol kinds on its channel: peek(f[:7]) == (type, ch, '
         'len(f)-8), and the buffer "7 bytes + size+1 more" is accepted by unmarshal with '
         'consumed == len(buffer) on the peeked channel and the kind matching the type '
-        'octet. Non-trivial = type octet >= 128, channel >= 32768, size >= 2^31, or '
+        'octet; heartbeats are requested on arbitrary channel arguments. Non-trivial = type octet >= 128, channel >= 32768, size >= 2^31, or '
         'length < 7 (peek); a frame with payload (reader).')
-ASSUMPTIONS = ['heartbeat frames are always emitted on channel 0 by the encoder']
+ASSUMPTIONS = ['for heartbeats the channel expected from the peek is the one in the encoded '
+               'bytes (the encoder ignores its channel argument for them; C18 checks that)']
 LEVEL_TEXT = ('Each header byte is enumerated exhaustively against an int.from_bytes oracle; '
               'the reader-loop clause is explored over generated frames of all kinds.')
 LEVEL_NOTE = 'Trusted: int.from_bytes big-endian arithmetic; Hypothesis.'
@@ -103,10 +104,12 @@ def check_reader(case):
     f = call('construct', make_frame, case)
     ch = case['ch']
     data = call('marshal', frame.marshal, f, ch)
-    if case['kind'] == 'heartbeat':
-        ch = 0
     t, pch, size = call('peek', frame.frame_parts, data[:7])
     want = (TYPE_OF[case['kind']], ch, len(data) - 8)
+    if case['kind'] == 'heartbeat':
+        # which channel a heartbeat is emitted on is C18's business (the fixed frame); here
+        # only: whatever the encoder wrote is what the peek reports and the decoder accepts
+        want = (8, int.from_bytes(data[1:3], 'big'), len(data) - 8)
     if (t, pch, size) != want:
         raise Violation('peek-vs-encoder', 'peek %r, expected %r' %
                         ((t, pch, size), want))
@@ -131,7 +134,8 @@ def reader_cases(tier):
     # every kind must also be read back when its payload is larger than 64 KiB / 128 KiB
     big_methods = S.method_cases(6, True).map(lambda c: dict(c, kind='method'))
     big_headers = S.big_header_cases().map(lambda c: dict(c, kind='header'))
-    return st.one_of(small, small, small, big_methods, big_headers)
+    beats = st.fixed_dictionaries({'kind': st.just('heartbeat'), 'ch': S.CHANNELS})
+    return st.one_of(small, small, small, big_methods, big_headers, beats)
 
 
 def big_sweep(tier, shard, nshards):
@@ -163,6 +167,9 @@ def big_sweep(tier, shard, nshards):
         out.append({'kind': 'header', 'ch': 3, 'body_size': 1,
                     'props': {'headers': dict(t), 'delivery_mode': 2,
                               'app_id': 'after'}})
+    # a heartbeat requested on every kind of channel argument
+    for ch in (0, 1, 5, 255, 256, 32767, 32768, 65535):
+        out.append({'kind': 'heartbeat', 'ch': ch})
     return out[shard::nshards]
 
 
